@@ -222,6 +222,10 @@ def main(ctx, replay=None):
     # ---- the shipped example(s): the scheduler run of a real calculation is a behaviour of the same specification ------
     real_runs(ctx, insts, traces, trace_meta, scr)
 
+    # ---- the repository's own tests as drivers (thorough): every task-list run they cause is validated too ----------------
+    if ctx.tier == "thorough":
+        repo_test_runs(ctx, insts, traces, trace_meta, scr)
+
     # ---- T: validate the recorded runs, one TLC invocation per scenario ----------------------------------
     for sc in list(traces):
         if not traces[sc]:
@@ -327,6 +331,57 @@ def real_runs(ctx, insts, traces, trace_meta, scr):
             ctx.cov.setdefault("real_runs_validated", []).append([name, sc, len(events)])
     finally:
         shutil.rmtree(tmp, ignore_errors=True)
+
+
+def classify_strain(strain):
+    """Which problem instance describes a strain-fraction field (by the code's own task equality), or None."""
+    same = lambda a, b: bool(numpy.allclose(strain[:, a], strain[:, b], rtol=1e-6, atol=0))
+    apart = lambda a, b: bool(numpy.min(numpy.abs(strain[:, a] - strain[:, b])) > 1e-3 * numpy.max(numpy.abs(strain)))
+    if same(0, 1) and same(0, 2):
+        return "isotropic"
+    if same(0, 1) and apart(0, 2):
+        return "uniaxial"
+    if same(1, 2) and apart(0, 1):
+        return "uniaxial23"
+    if same(0, 2) and apart(0, 1):
+        return "uniaxial13"
+    if apart(0, 1) and apart(0, 2) and apart(1, 2):
+        return "generic"
+    return None
+
+
+def repo_test_runs(ctx, insts, traces, trace_meta, scr):
+    """tests/test_cij_cli_run.py of the repository, executed in this process under the recorder: the shipped examples at their full
+    settings.  Whatever the tests assert, every resolve/calculate/get run they trigger must be a behaviour of TaskScheduler."""
+    from cv.repotests import run_tests
+    from cv.schedtrace import Capture, project_run
+    with Capture() as cap:
+        rc = run_tests(ctx.subdir("repotests"), ["test_cij_cli_run.py"])
+    ctx.cov["repo_tests"] = {"module": "tests/test_cij_cli_run.py", "pytest_exit": rc, "task_list_runs": len(cap.runs)}
+    for n, run in enumerate(cap.runs):
+        strain = numpy.asarray(run["strain"], dtype=float)
+        if strain.ndim != 2:
+            continue
+        sc = classify_strain(strain)
+        case = {"repo_test_run": n, "scenario": sc, "request": ["%d%d" % k.voigt for k in run["keys"]]}
+        ctx.count(case)
+        if sc is None:
+            ctx.cov.setdefault("real_runs_skipped", []).append(f"repo test run {n}")
+            continue
+        if sc not in insts:
+            insts.update(sched.load_instances(ctx, scenarios=(sc,)))
+            scr[sc] = ctx.subdir(f"mc_{sc}")
+            sched.write_data_module(insts[sc], scr[sc])
+            traces[sc], trace_meta[sc] = [], []
+        events, info = project_run(insts[sc], run, rtol=2e-5, atol=1e-8)
+        if events is None or info["projection"] == "non-injective":
+            ctx.cov.setdefault("real_runs_unprojected", []).append([f"repo test run {n}", info["projection"]])
+            continue
+        if traces[sc]:
+            traces[sc].append({"ev": "Reset"})
+        traces[sc] += events
+        trace_meta[sc].append((len(traces[sc]), case["request"], f"repository test run {n}"))
+        ctx.cov.setdefault("real_runs_validated", []).append([f"repo test run {n}", sc, len(events)])
 
 
 def check_isotropy(ctx, vals, scale, rep, sig):
